@@ -283,7 +283,9 @@ func (t *HashType) IsAssignable(o px.Type, g px.Guard) bool {
 		if t.size.min == 0 && o == hashTypeEmpty {
 			return true
 		}
-		return t.size.IsAssignable(o.size, g) && GuardedIsAssignable(t.keyType, o.keyType, g) && GuardedIsAssignable(t.valueType, o.valueType, g)
+		// The only instance of a hash type with maximal size 0 is the empty hash: its key and value types describe no entry
+		return t.size.IsAssignable(o.size, g) && (o.size.max <= 0 ||
+			GuardedIsAssignable(t.keyType, o.keyType, g) && GuardedIsAssignable(t.valueType, o.valueType, g))
 	case *StructType:
 		if !t.size.IsAssignable(o.Size(), g) {
 			return false
